@@ -2,13 +2,13 @@ SPECIFICATION Spec
 CONSTANTS
   MaxBlocks = 2
   MaxReqs = 2
-  Templates = {"o23", "jmp", "d3"}
-  PatchKinds = {"plain2", "plain7", "bytes"}
-  FnLayouts = {"none"}
+  Templates = {"o23", "o123", "ret", "d3"}
+  PatchKinds = {"plain2", "cfi", "cfistate"}
+  FnLayouts = {"one"}
   EndSyms = {FALSE}
   AnnModes = {"none"}
   WithProxyDel = FALSE
-  CfiLayouts = {"none"}
+  CfiLayouts = {"proc_all", "proc_each", "proc_rs"}
   Emit = TRUE
 INVARIANT Inv
 CHECK_DEADLOCK FALSE
